@@ -589,8 +589,14 @@ class SqfsImage:
             m = dict(self.meta_seen[key])
             m["off"] = 0
             ev.append(m)
+        refs = {}
+        for L_ in self.listings.values():
+            for en in L_["entries"]:
+                t_ = self.by_ref.get(en["ref"])
+                if t_ is not None:
+                    refs[t_["num"]] = refs.get(t_["num"], 0) + 1
         for pos, ino in enumerate(self.inode_list):
-            d = {"e": "Inode", "pos": pos + 1, "num": ino["num"], "type": ino["type"], "ext": ino["ext"],
+            d = {"e": "Inode", "pos": pos + 1, "num": ino["num"], "type": ino["type"], "ext": ino["ext"], "refs": refs.get(ino["num"], 0),
                  "nlink": min(ino["nlink"], 1 << 30), "uid_idx": ino["uid_idx"], "gid_idx": ino["gid_idx"],
                  "xattr": -1 if ino["xattr"] == NOXATTR else min(ino["xattr"], 1 << 30),
                  "ref_blk": ino["ref"][0], "ref_off": ino["ref"][1]}
